@@ -1,7 +1,1043 @@
-//! C03: correspondence + oracle runs (sub-commands `c03` / `c03-*`).
+//! C03: TCP connections open, synchronise and close as RFC 9293 prescribes.
+//!
+//! Uses the two-endpoint engine of `c01.rs` (same op lines; the model driver `c03*` answers the
+//! same lines plus the transition log ` | tr from>to ok`).
+//!
+//! Sub-commands:
+//!  * `c03` (run `sched`): random two-endpoint schedules with `close` by either/both sides in
+//!    any state, with data queued or in flight, loss / duplication / reordering, occasionally an
+//!    old duplicate SYN of an earlier incarnation or an `abort`; then the fair close phase.
+//!  * `c03-enum`: small-scope exhaustive enumeration (stateless DFS) of all orders of
+//!    SYN / SYN-ACK / ACK / FIN delivery and of the two `close` calls, with a bounded number of
+//!    drops and duplicates, in four variants (active/passive or simultaneous open, with or
+//!    without data queued before the handshake); every schedule ends in the fair close phase.
+//!    Every k-th schedule is printed for the model comparison, all are checked by the oracles.
+//!  * `c03-edges`: the Rust copy of the RFC 9293 edge table below, dumped entry by entry and
+//!    compared with the Lean table (`Spec/Rfc9293.lean`) by the driver.
+//!
+//! Native oracles (independent of the model, evaluated on the real code):
+//!  * every observed state change of every call is a path of RFC 9293 edges for the events the
+//!    call stands for (`rfc_cause`), staying in place is always allowed;
+//!  * IRS never changes outside SYN-SENT (old duplicate SYNs are harmless);
+//!  * both sides synchronised: SND.UNA_B <= RCV.NXT_A <= SND.NXT_B (both directions), and
+//!    RCV.NXT_A = SND.NXT_B once the fair phase is quiet;
+//!  * data-before-EOF: when an endpoint first shows "FIN received" (CLOSE-WAIT, LAST-ACK,
+//!    CLOSING, TIME-WAIT) it holds (delivered + buffered) exactly the bytes the peer submitted;
+//!  * release: once both sides closed and delivery is fair, both TCBs are deleted by the final
+//!    ACK or within 2*MSL + RTO of virtual time after the exchange quiesces, TIME-WAIT is
+//!    silent meanwhile, nobody is reset by a live TCB.
+use super::c01::*;
+use elvis_core::protocols::tcp::verif::*;
 use hcommon::*;
 
+// ---------------------------------------------------------------------------------------------
+// RFC 9293 edge table — hand copy of lean/ElvisVerif/Spec/Rfc9293.lean, checked against the Lean
+// table entry by entry on every run (`c03-edges`) and on every transition that occurs
+// ---------------------------------------------------------------------------------------------
+pub type St = Option<State>;
+
+pub const ALL_STATES: [St; 10] = [
+    None,
+    Some(State::SynSent),
+    Some(State::SynReceived),
+    Some(State::Established),
+    Some(State::FinWait1),
+    Some(State::FinWait2),
+    Some(State::CloseWait),
+    Some(State::Closing),
+    Some(State::LastAck),
+    Some(State::TimeWait),
+];
+
+#[derive(Clone, Copy, PartialEq, Eq, Debug)]
+pub enum Ev {
+    Open,
+    Close,
+    Abort,
+    Timeout,
+    Seg { ack: bool, rst: bool, syn: bool, fin: bool },
+}
+
+pub fn st_name(s: St) -> &'static str {
+    match s {
+        None => "-",
+        Some(s) => state_str(s),
+    }
+}
+
+pub fn rfc_edges(a: St, b: St) -> bool {
+    use State::*;
+    match (a, b) {
+        (None, Some(SynSent)) | (None, Some(SynReceived)) => true,
+        (Some(SynSent), Some(SynReceived)) | (Some(SynSent), Some(Established)) => true,
+        (Some(SynReceived), Some(Established)) | (Some(SynReceived), Some(FinWait1)) | (Some(SynReceived), Some(CloseWait)) => true,
+        (Some(Established), Some(FinWait1)) | (Some(Established), Some(CloseWait)) => true,
+        (Some(FinWait1), Some(FinWait2)) | (Some(FinWait1), Some(Closing)) | (Some(FinWait1), Some(TimeWait)) => true,
+        (Some(FinWait2), Some(TimeWait)) => true,
+        (Some(CloseWait), Some(LastAck)) => true,
+        (Some(Closing), Some(TimeWait)) => true,
+        (Some(_), None) => true,
+        _ => false,
+    }
+}
+
+pub fn rfc_cause(ev: Ev, a: St, b: St) -> bool {
+    use State::*;
+    match (ev, a, b) {
+        (Ev::Open, None, Some(SynSent)) => true,
+        (Ev::Close, Some(SynSent), None) => true,
+        (Ev::Close, Some(SynReceived), Some(FinWait1)) => true,
+        (Ev::Close, Some(Established), Some(FinWait1)) => true,
+        (Ev::Close, Some(CloseWait), Some(LastAck)) => true,
+        (Ev::Abort, Some(_), None) => true,
+        (Ev::Timeout, Some(TimeWait), None) => true,
+        (Ev::Seg { ack, rst, syn, .. }, None, Some(SynReceived)) => syn && !rst && !ack,
+        (Ev::Seg { ack, rst, .. }, Some(SynSent), None) => rst && ack,
+        (Ev::Seg { rst, syn, .. }, Some(SynSent), Some(Established)) => syn && !rst,
+        (Ev::Seg { rst, syn, .. }, Some(SynSent), Some(SynReceived)) => syn && !rst,
+        (Ev::Seg { ack, rst, .. }, Some(LastAck), None) => rst || ack,
+        (Ev::Seg { rst, .. }, Some(_), None) => rst,
+        (Ev::Seg { ack, .. }, Some(SynReceived), Some(Established)) => ack,
+        (Ev::Seg { ack, .. }, Some(FinWait1), Some(FinWait2)) => ack,
+        (Ev::Seg { ack, .. }, Some(Closing), Some(TimeWait)) => ack,
+        (Ev::Seg { fin, .. }, Some(SynReceived), Some(CloseWait)) => fin,
+        (Ev::Seg { fin, .. }, Some(Established), Some(CloseWait)) => fin,
+        (Ev::Seg { fin, .. }, Some(FinWait1), Some(Closing)) => fin,
+        (Ev::Seg { fin, .. }, Some(FinWait1), Some(TimeWait)) => fin,
+        (Ev::Seg { fin, .. }, Some(FinWait2), Some(TimeWait)) => fin,
+        _ => false,
+    }
+}
+
+/// `b` reachable from `a` by edges each caused by one of `evs` (staying in place included)
+pub fn rfc_reach(evs: &[Ev], a: St, b: St) -> bool {
+    let mut cur = vec![a];
+    for _ in 0..10 {
+        let mut next = vec![];
+        for t in ALL_STATES {
+            if cur.contains(&t) || cur.iter().any(|s| evs.iter().any(|e| rfc_cause(*e, *s, t))) {
+                next.push(t);
+            }
+        }
+        cur = next;
+    }
+    cur.contains(&b)
+}
+
+fn ev_of(h: &TcpHeader) -> Ev {
+    Ev::Seg { ack: h.ctl.ack(), rst: h.ctl.rst(), syn: h.ctl.syn(), fin: h.ctl.fin() }
+}
+
+/// the transition log entry of one op (must equal `Driver/C03.lean` character for character)
+pub fn transition(w: &[&str], before: Option<&VerifTcbSnapshot>, after: Option<&VerifTcbSnapshot>, arriving: Option<&TcpHeader>) -> (String, bool) {
+    if w[0] == "drop" {
+        return (" | tr - - 1".into(), true);
+    }
+    let from = before.map(|s| s.state);
+    let to = after.map(|s| s.state);
+    let evs: Vec<Ev> = match w[0] {
+        "open" => vec![Ev::Open],
+        "close" => vec![Ev::Close],
+        "abort" => vec![Ev::Abort],
+        "tick" => vec![Ev::Timeout],
+        "deliver" | "inject" | "injecthex" => {
+            let mut v = vec![];
+            if let Some(h) = arriving {
+                v.push(ev_of(h));
+                if let Some(b) = before {
+                    for (h, _) in &b.incoming_segments {
+                        v.push(ev_of(h));
+                    }
+                }
+            }
+            v
+        }
+        _ => vec![],
+    };
+    let ok = rfc_reach(&evs, from, to);
+    (format!(" | tr {}>{} {}", st_name(from), st_name(to), ok as u8), ok)
+}
+
+// ---------------------------------------------------------------------------------------------
+// per-op oracles
+// ---------------------------------------------------------------------------------------------
+#[derive(Default)]
+pub struct C03State {
+    /// `close` answered `ok` on this side
+    pub closed: [bool; 2],
+    /// per history index: produced by the LISTEN / CLOSED handlers (no TCB), not by a TCB
+    pub no_tcb_origin: Vec<bool>,
+    /// the side was released by a segment carrying RST
+    pub reset_release: [bool; 2],
+    /// a live TCB emitted a RST
+    pub live_rst: bool,
+    /// the side has shown "FIN received"
+    pub fin_seen: [bool; 2],
+    /// bytes received and still unread by the application when the TCB was deleted
+    pub unread_at_release: [usize; 2],
+}
+
+/// bytes of the peer's stream this side holds: read by the application, buffered, or buffered
+/// when its TCB was deleted
+fn holds(ex: &Exec, x: SideId) -> usize {
+    ex.side(x).delivered.len() + ex.snap_ref(x).map_or(ex.c03.as_ref().unwrap().unread_at_release[x as usize], |s| s.incoming_text.len())
+}
+
+fn fin_received(s: State) -> bool {
+    matches!(s, State::CloseWait | State::LastAck | State::Closing | State::TimeWait)
+}
+fn synchronised(s: State) -> bool {
+    !matches!(s, State::SynSent | State::SynReceived)
+}
+fn le31(a: u32, b: u32) -> bool {
+    b.wrapping_sub(a) < (1u32 << 31)
+}
+
+pub fn after_op(ex: &mut Exec, x: SideId, w: &[&str], before: Option<VerifTcbSnapshot>, arriving: Option<TcpHeader>, tr_ok: bool, out: &mut Out) {
+    let after = ex.snap(x);
+    let emitted = ex.last_emitted.clone();
+    let hist_len = ex.history.len();
+    let from = before.as_ref().map(|s| s.state);
+    let to = after.as_ref().map(|s| s.state);
+    let clean = !ex.tainted && !ex.a.aborted && !ex.b.aborted;
+    {
+        let st = ex.c03.as_mut().unwrap();
+        st.no_tcb_origin.resize(hist_len, false);
+        for i in &emitted {
+            st.no_tcb_origin[*i] = w[0] != "emit";
+        }
+        if w[0] == "close" && ex.last == "ok" {
+            st.closed[x as usize] = true;
+        }
+    }
+    if w[0] == "emit" {
+        for i in &emitted {
+            if ex.history[*i].0.ctl.rst() {
+                ex.c03.as_mut().unwrap().live_rst = true;
+                if clean {
+                    fail(out, &format!("{} (state {}) emitted a RST in a closed system without forged segments: {}", x.name(), st_name(from), hdr_str(&ex.history[*i].0)), &format!("reset-by-live-tcb in {}", st_name(from)));
+                }
+            }
+        }
+    }
+    // ---- every transition is a path of RFC 9293 edges for the events of this op ----
+    if !tr_ok {
+        let flags = arriving.map(|h| format!(" ctl={}", u8::from(h.ctl))).unwrap_or_default();
+        fail(
+            out,
+            &format!("`{}`{} moved {} from {} to {}: not a path of RFC 9293 edges for that event", w.join(" "), flags, x.name(), st_name(from), st_name(to)),
+            &format!("transition {}>{} on {}", st_name(from), st_name(to), w[0]),
+        );
+    }
+    if from != to {
+        out.count(&format!("tr.{}>{}", st_name(from), st_name(to)));
+    }
+    if let (Some(b), None) = (&before, &after) {
+        ex.c03.as_mut().unwrap().unread_at_release[x as usize] = b.incoming_text.len();
+    }
+    // ---- released by a RST ----
+    if before.is_some() && after.is_none() && arriving.map_or(false, |h| h.ctl.rst()) {
+        ex.c03.as_mut().unwrap().reset_release[x as usize] = true;
+        let origin = match (w[0], w.get(2).and_then(|i| i.parse::<usize>().ok())) {
+            ("deliver", Some(i)) => if ex.c03.as_ref().unwrap().no_tcb_origin.get(i).copied().unwrap_or(false) { "closed_or_listen" } else { "live_tcb" },
+            _ => "forged",
+        };
+        out.count(&format!("released_by_rst.from_{}.in_{}", origin, st_name(from)));
+    }
+    // ---- IRS never changes outside SYN-SENT ----
+    if let (Some(b), Some(a)) = (&before, &after) {
+        if b.state != State::SynSent && w[0] != "open" && a.rcv.0 != b.rcv.0 {
+            fail(out, &format!("`{}` changed IRS from {} to {} in state {}", w.join(" "), b.rcv.0, a.rcv.0, state_str(b.state)), &format!("irs-changed in {}", state_str(b.state)));
+        }
+    }
+    // ---- data before EOF ----
+    if let Some(a) = &after {
+        if fin_received(a.state) && !ex.c03.as_ref().unwrap().fin_seen[x as usize] {
+            ex.c03.as_mut().unwrap().fin_seen[x as usize] = true;
+            if clean {
+                let mut got = ex.side(x).delivered.clone();
+                got.extend_from_slice(&a.incoming_text);
+                let sent = &ex.side(x.peer()).submitted;
+                if &got != sent {
+                    fail(
+                        out,
+                        &format!(
+                            "{} shows FIN received (state {}) but holds {} of the {} bytes {} submitted before closing",
+                            x.name(), state_str(a.state), got.len(), sent.len(), x.peer().name()
+                        ),
+                        "eof-before-data",
+                    );
+                }
+            }
+        }
+    }
+    // ---- both synchronised: SND.UNA_q <= RCV.NXT_p <= SND.NXT_q ----
+    if clean {
+        if let (Some(sa), Some(sb)) = (ex.snap_ref(SideId::A), ex.snap_ref(SideId::B)) {
+            if synchronised(sa.state) && synchronised(sb.state) {
+                let mut bad: Option<(String, &'static str)> = None;
+                for (p, q, pn, qn) in [(sa, sb, "A", "B"), (sb, sa, "B", "A")] {
+                    if !le31(q.snd.0, p.rcv.1) {
+                        bad = Some((format!("SND.UNA_{}={} is ahead of RCV.NXT_{}={}", qn, q.snd.0, pn, p.rcv.1), "synchronised snd.una>rcv.nxt"));
+                    }
+                    if !le31(p.rcv.1, q.snd.1) {
+                        bad = Some((format!("RCV.NXT_{}={} is ahead of SND.NXT_{}={}", pn, p.rcv.1, qn, q.snd.1), "synchronised rcv.nxt>snd.nxt"));
+                    }
+                }
+                if let Some((what, ident)) = bad {
+                    fail(out, &format!("after `{}` ({} / {}): {}", w.join(" "), state_str(sa.state), state_str(sb.state), what), ident);
+                }
+            }
+        }
+    }
+}
+
+// ---------------------------------------------------------------------------------------------
+// the fair close phase and the release oracle
+// ---------------------------------------------------------------------------------------------
+/// (2*MSL, RTO) in ms, as extracted from the source by tools/extract.py on this run
+fn timer_consts() -> (u64, u64) {
+    let text = std::fs::read_to_string("lean/ElvisVerif/Generated/TcbConsts.lean").unwrap_or_default();
+    let get = |name: &str| -> Option<u64> {
+        let key = format!("def {} : Nat := ", name);
+        let i = text.find(&key)?;
+        text[i + key.len()..].lines().next()?.trim().parse().ok()
+    };
+    let msl = get("mslMs").unwrap_or(1000);
+    let rto = get("rtoMs").unwrap_or(100);
+    (2 * msl, rto)
+}
+
+pub struct Net {
+    pub pending: Vec<(SideId, usize)>,
+}
+
+fn emit_both(ex: &mut Exec, net: &mut Net, out: &mut Out) -> usize {
+    let mut n = 0;
+    for x in [SideId::A, SideId::B] {
+        if ex.side(x).tcb.is_some() && !ex.dead {
+            ex.apply(&format!("emit {}", x.name()), out);
+            for i in ex.last_emitted.clone() {
+                net.pending.push((x.peer(), i));
+                n += 1;
+            }
+        }
+    }
+    n
+}
+
+fn deliver(ex: &mut Exec, net: &mut Net, to: SideId, i: usize, out: &mut Out) {
+    ex.apply(&format!("deliver {} {}", to.name(), i), out);
+    // responses of LISTEN/CLOSED go back to the sender
+    for j in ex.last_emitted.clone() {
+        net.pending.push((to.peer(), j));
+    }
+}
+
+fn describe(ex: &Exec, x: SideId) -> String {
+    match ex.snap_ref(x) {
+        Some(s) => format!("{} rtx={} unsent={} heap={} tw={:?}", state_str(s.state), s.retransmit.len(), s.outgoing_text.len(), s.incoming_segments.len(), s.time_wait.map(|d| d.as_millis())),
+        None => if ex.side(x).released { "released".into() } else { "no TCB".into() },
+    }
+}
+
+/// deliver everything FIFO until nothing is in flight; false = it never stops
+fn quiesce(ex: &mut Exec, net: &mut Net, out: &mut Out) -> bool {
+    let mut guard = 0;
+    loop {
+        emit_both(ex, net, out);
+        if ex.dead {
+            return true;
+        }
+        if net.pending.is_empty() {
+            return true;
+        }
+        for (to, i) in std::mem::take(&mut net.pending) {
+            deliver(ex, net, to, i, out);
+            if ex.dead {
+                return true;
+            }
+        }
+        for x in [SideId::A, SideId::B] {
+            if ex.snap_ref(x).map_or(false, |s| !s.incoming_text.is_empty()) {
+                ex.apply(&format!("read {}", x.name()), out);
+            }
+        }
+        guard += 1;
+        if guard > 40 {
+            return false;
+        }
+    }
+}
+
+/// The fair phase of C03.  `both`: both applications close now (if they have not yet).
+/// Fair delivery until the exchange is quiet and every side is released or in TIME-WAIT (both
+/// closed) / nothing is outstanding (otherwise); then 2*MSL + RTO of virtual time must release
+/// every TIME-WAIT side, in silence.
+pub fn fair_close_phase(ex: &mut Exec, net: &mut Net, out: &mut Out, both: bool) {
+    out.line(&format!("!fair {}", both as u8), "bad-op");
+    let (time_wait, rto) = timer_consts();
+    let tick = rto + 50;
+    if ex.dead {
+        return;
+    }
+    let sides = [SideId::A, SideId::B];
+    if both {
+        for x in sides {
+            if ex.side(x).tcb.is_some() && !ex.c03.as_ref().unwrap().closed[x as usize] {
+                // an application closes only an open connection: wait for SYN-SENT to resolve
+                if ex.snap_ref(x).map_or(false, |s| s.state == State::SynSent) {
+                    continue;
+                }
+                ex.apply(&format!("close {}", x.name()), out);
+            }
+        }
+    }
+    let check = |ex: &Exec| !ex.tainted && !ex.a.aborted && !ex.b.aborted && !ex.c03.as_ref().unwrap().reset_release.iter().any(|b| *b);
+    let mut rounds = 0;
+    loop {
+        if !quiesce(ex, net, out) {
+            if check(ex) {
+                fail(out, &format!("fair delivery never quiesces (segments keep being exchanged): A: {}; B: {}", describe(ex, SideId::A), describe(ex, SideId::B)), "no-quiescence");
+            }
+            return;
+        }
+        if ex.dead {
+            return;
+        }
+        if both {
+            // close the sides that were still in SYN-SENT when the phase began
+            for x in sides {
+                if ex.side(x).tcb.is_some() && !ex.c03.as_ref().unwrap().closed[x as usize] && ex.snap_ref(x).map_or(false, |s| s.state != State::SynSent) {
+                    ex.apply(&format!("close {}", x.name()), out);
+                }
+            }
+        }
+        let closed_both = sides.iter().all(|x| ex.c03.as_ref().unwrap().closed[*x as usize] || ex.side(*x).tcb.is_none());
+        let data_ok = holds(ex, SideId::B) >= ex.a.submitted.len() && holds(ex, SideId::A) >= ex.b.submitted.len();
+        let settled = sides.iter().all(|x| match ex.snap_ref(*x) {
+            None => true,
+            Some(s) => {
+                let idle = s.retransmit.is_empty() && s.outgoing_text.is_empty();
+                if closed_both { s.state == State::TimeWait && idle } else { idle }
+            }
+        });
+        if settled && (data_ok || !check(ex)) && net.pending.is_empty() {
+            out.count(&format!("settled_after_rtos.{}", rounds.min(9)));
+            break;
+        }
+        if check(ex) && !data_ok && ex.a.tcb.is_none() && ex.b.tcb.is_none() && ex.a.released && ex.b.released {
+            fail(
+                out,
+                &format!(
+                    "both TCBs were released but data is missing: A submitted {} B holds {}; B submitted {} A holds {}",
+                    ex.a.submitted.len(), holds(ex, SideId::B), ex.b.submitted.len(), holds(ex, SideId::A)
+                ),
+                "released-before-data-delivered",
+            );
+            return;
+        }
+        rounds += 1;
+        if rounds > 60 {
+            if check(ex) {
+                let ident = if closed_both { "no-release" } else { "no-convergence" };
+                fail(
+                    out,
+                    &format!(
+                        "after 60 loss-free RTO rounds{}: A submitted {} B holds {}; B submitted {} A holds {}; A: {}; B: {}",
+                        if closed_both { " with both sides closed" } else { "" },
+                        ex.a.submitted.len(), holds(ex, SideId::B), ex.b.submitted.len(), holds(ex, SideId::A), describe(ex, SideId::A), describe(ex, SideId::B)
+                    ),
+                    ident,
+                );
+            }
+            return;
+        }
+        for x in sides {
+            if ex.side(x).tcb.is_some() {
+                ex.apply(&format!("tick {} {}", x.name(), tick), out);
+            }
+        }
+    }
+    // quiet: each side's next expected sequence number equals what the peer has sent
+    if check(ex) {
+        if let (Some(sa), Some(sb)) = (ex.snap_ref(SideId::A), ex.snap_ref(SideId::B)) {
+            if synchronised(sa.state) && synchronised(sb.state) && (sa.rcv.1 != sb.snd.1 || sb.rcv.1 != sa.snd.1) {
+                fail(out, &format!("quiet and synchronised, but RCV.NXT_A={} SND.NXT_B={} RCV.NXT_B={} SND.NXT_A={}", sa.rcv.1, sb.snd.1, sb.rcv.1, sa.snd.1), "synchronised rcv.nxt!=snd.nxt when quiet");
+            }
+        }
+    }
+    // the wait: 2*MSL + RTO of virtual time, in silence
+    let mut elapsed = 0;
+    while elapsed < time_wait + rto {
+        let step = tick.min(time_wait + rto - elapsed);
+        elapsed += step;
+        for x in sides {
+            if ex.side(x).tcb.is_some() {
+                ex.apply(&format!("tick {} {}", x.name(), step), out);
+            }
+        }
+        let n = emit_both(ex, net, out);
+        if ex.dead {
+            return;
+        }
+        if n > 0 {
+            if check(ex) {
+                fail(out, &format!("a settled endpoint transmits again after {} ms of quiet: A: {}; B: {}", elapsed, describe(ex, SideId::A), describe(ex, SideId::B)), "not-silent");
+            }
+            if !quiesce(ex, net, out) {
+                if check(ex) {
+                    fail(out, "fair delivery never quiesces (segments keep being exchanged)", "no-quiescence");
+                }
+                return;
+            }
+        }
+    }
+    let closed_both = sides.iter().all(|x| ex.c03.as_ref().unwrap().closed[*x as usize] || ex.side(*x).tcb.is_none());
+    if closed_both && check(ex) {
+        for x in sides {
+            if let Some(s) = ex.snap_ref(x) {
+                fail(
+                    out,
+                    &format!("both sides closed and delivery was fair, but {} still holds its TCB ({}) {} ms after the exchange went quiet (2*MSL + RTO = {} ms)", x.name(), describe(ex, x), elapsed, time_wait + rto),
+                    &format!("not-released in {}", state_str(s.state)),
+                );
+            }
+        }
+        out.count("released_both");
+    }
+}
+
+// ---------------------------------------------------------------------------------------------
+// generator 1: random schedules with closes
+// ---------------------------------------------------------------------------------------------
+fn pick_write(rng: &mut Rng) -> usize {
+    match rng.below(16) {
+        0..=3 => 1,
+        4..=7 => rng.below(50) as usize,
+        8..=11 => rng.below(3000) as usize,
+        12..=13 => rng.below(40000) as usize,
+        _ => rng.below(9000) as usize,
+    }
+}
+
+pub fn sched_case(ex: &mut Exec, rng: &mut Rng, out: &mut Out, steps: u64) {
+    let mtu_a = pick_mtu(rng);
+    let mtu_b = if rng.chance(1, 4) { pick_mtu(rng) } else { mtu_a };
+    let (iss_a, iss_b) = (pick_isn(rng), pick_isn(rng));
+    let simultaneous = rng.chance(1, 4);
+    let eager = rng.chance(1, 2);
+    let old_syn = rng.chance(1, 6);
+    let aborts = rng.chance(1, 12);
+    // how eagerly the applications close: early (handshake / data in flight), late, never before
+    // the fair phase
+    let close_rate = *rng.pick(&[2u64, 6, 20, 1000]);
+    let mss = (mtu_a.min(mtu_b) - 50) as u64;
+    let budget: u64 = (60 * mss).min(200_000);
+    out.count(if simultaneous { "open.simultaneous" } else { "open.active_passive" });
+    ex.apply(&format!("open A {} {}", iss_a, mtu_a), out);
+    if simultaneous {
+        ex.apply(&format!("open B {} {}", iss_b, mtu_b), out);
+    } else {
+        ex.apply(&format!("listen B {} {}", iss_b, mtu_b), out);
+    }
+    let mut net = Net { pending: vec![] };
+    let mut seed = rng.next() % 1_000_000;
+    let mut written: u64 = 0;
+    // directed prelude (1/4 of the cases): a close while more than a window of data is queued, so
+    // that the FIN has to wait for text that the peer's window does not admit yet —
+    // in FIN-WAIT-1 / CLOSING (the closing side is the writer) or in LAST-ACK (the peer closed first)
+    let prelude = rng.below(8);
+    if prelude < 2 && !old_syn && !aborts {
+        out.count(if prelude == 0 { "prelude.finwait1_pending" } else { "prelude.lastack_pending" });
+        for _ in 0..4 {
+            quiesce(ex, &mut net, out);
+        }
+        let w = if prelude == 0 { SideId::A } else { SideId::B };
+        let n = rng.range(66000, 100000);
+        written += n;
+        seed += 1;
+        ex.apply(&format!("write {} {} {}", w.name(), n, seed), out);
+        ex.apply(&format!("emit {}", w.name()), out);
+        for i in ex.last_emitted.clone() {
+            net.pending.push((w.peer(), i));
+        }
+        if prelude == 1 {
+            // the reader closes first and its FIN overtakes nothing: B goes to CLOSE-WAIT
+            ex.apply("close A", out);
+            ex.apply("emit A", out);
+            for i in ex.last_emitted.clone() {
+                deliver(ex, &mut net, SideId::B, i, out);
+            }
+        }
+        ex.apply(&format!("close {}", w.name()), out);
+        if rng.chance(1, 2) && prelude == 0 {
+            ex.apply("close B", out);
+        }
+    }
+    for _ in 0..steps {
+        if ex.dead {
+            return;
+        }
+        for x in [SideId::A, SideId::B] {
+            if ex.side(x).tcb.is_some() && rng.chance(3, 4) {
+                ex.apply(&format!("emit {}", x.name()), out);
+                for i in ex.last_emitted.clone() {
+                    net.pending.push((x.peer(), i));
+                }
+                if ex.dead {
+                    return;
+                }
+            }
+        }
+        match rng.below(19) {
+            0..=6 => {
+                if !net.pending.is_empty() {
+                    let k = rng.below(net.pending.len() as u64) as usize;
+                    let k = if rng.chance(2, 3) { 0 } else { k };
+                    let (to, i) = if rng.chance(1, 6) {
+                        out.count("net.dup");
+                        out.line(&format!("!dup {} {}", net.pending[k].0.name(), net.pending[k].1), "bad-op");
+                        net.pending[k]
+                    } else {
+                        net.pending.remove(k)
+                    };
+                    deliver(ex, &mut net, to, i, out);
+                    // the passive side keeps listening after a reset of a half-open connection
+                    if !simultaneous && ex.b.tcb.is_none() && ex.b.listen.is_none() && ex.a.tcb.is_some() && !ex.b.released_after_sync() {
+                        ex.apply(&format!("listen B {} {}", iss_b, mtu_b), out);
+                    }
+                }
+            }
+            7 => {
+                if !net.pending.is_empty() {
+                    let k = rng.below(net.pending.len() as u64) as usize;
+                    let (to, i) = net.pending.remove(k);
+                    out.line(&format!("!lose {} {}", to.name(), i), "bad-op");
+                    out.count("net.drop");
+                }
+            }
+            8 | 9 => {
+                let d = if rng.chance(1, 3) { 150 } else { 5 };
+                for x in [SideId::A, SideId::B] {
+                    if ex.side(x).tcb.is_some() {
+                        ex.apply(&format!("tick {} {}", x.name(), d), out);
+                    }
+                }
+            }
+            10 | 11 => {
+                if rng.chance(1, close_rate) || (close_rate < 1000 && rng.chance(1, 12)) {
+                    let x = if rng.chance(1, 2) { SideId::A } else { SideId::B };
+                    if let Some(s) = ex.snap(x) {
+                        out.count(&format!("close.in.{}", state_str(s.state)));
+                        if !s.outgoing_text.is_empty() {
+                            out.count("close.with_unsegmentized_text");
+                        }
+                        if s.retransmit.iter().any(|t| !t.1.is_empty()) {
+                            out.count("close.with_data_in_flight");
+                        }
+                        ex.apply(&format!("close {}", x.name()), out);
+                    }
+                }
+            }
+            12..=14 => {
+                let x = if rng.chance(1, 2) { SideId::A } else { SideId::B };
+                if let Some(s) = ex.snap(x) {
+                    // also after close: `send` must refuse
+                    if written < budget {
+                        let n = pick_write(rng).min((budget - written) as usize);
+                        seed += 1;
+                        if matches!(s.state, State::SynSent | State::SynReceived | State::Established) {
+                            written += n as u64;
+                        } else {
+                            out.count("write.after_close");
+                        }
+                        ex.apply(&format!("write {} {} {}", x.name(), n, seed), out);
+                    }
+                }
+            }
+            15 if old_syn && rng.chance(1, 8) => {
+                // an old duplicate SYN of an earlier incarnation of the peer: other ISN, no ACK
+                let x = if rng.chance(1, 3) { SideId::A } else { SideId::B };
+                let isn = pick_isn(rng);
+                out.count("old_syn");
+                ex.apply(&format!("inject {} 2 {} 0 {} 0 0", x.name(), isn, rng.below(65536)), out);
+                for j in ex.last_emitted.clone() {
+                    net.pending.push((x.peer(), j));
+                }
+            }
+            17 if old_syn && rng.chance(1, 4) => {
+                // an old duplicate RST (no ACK) of an earlier incarnation
+                let x = if rng.chance(1, 2) { SideId::A } else { SideId::B };
+                if let Some(s) = ex.snap(x) {
+                    out.count(&format!("old_rst.in.{}", state_str(s.state)));
+                    let seq = if rng.chance(1, 2) { s.rcv.1 } else { pick_isn(rng) };
+                    ex.apply(&format!("inject {} 4 {} 0 0 0 0", x.name(), seq), out);
+                }
+            }
+            16 if aborts && rng.chance(1, 10) => {
+                let x = if rng.chance(1, 2) { SideId::A } else { SideId::B };
+                if ex.side(x).tcb.is_some() {
+                    ex.apply(&format!("abort {}", x.name()), out);
+                    ex.apply(&format!("emit {}", x.name()), out);
+                    for i in ex.last_emitted.clone() {
+                        net.pending.push((x.peer(), i));
+                    }
+                    ex.apply(&format!("drop {}", x.name()), out);
+                }
+            }
+            _ => {
+                if eager || rng.chance(1, 4) {
+                    for x in [SideId::A, SideId::B] {
+                        if ex.side(x).tcb.is_some() {
+                            ex.apply(&format!("read {}", x.name()), out);
+                        }
+                    }
+                }
+            }
+        }
+    }
+    if ex.dead {
+        return;
+    }
+    let both = rng.chance(4, 5);
+    fair_close_phase(ex, &mut net, out, both);
+}
+
+trait SideExt {
+    fn released_after_sync(&self) -> bool;
+}
+impl SideExt for Side {
+    /// the side once delivered or accepted data / was released otherwise than from a half-open
+    /// state: do not re-listen (a new incarnation is not part of these schedules)
+    fn released_after_sync(&self) -> bool {
+        self.released && (!self.delivered.is_empty() || !self.submitted.is_empty())
+    }
+}
+
+const RULE_SCHED: &str = "two real Tcbs (active/passive or simultaneous open, MTU 100..65535, ISNs uniform and dense near 0/2^31/2^32), random interleaving of writes (also after close), reads, 5/150 ms ticks, deliver-any/duplicate/drop, close by either/both sides in any state with data queued or in flight, in 1/6 of the cases old duplicate SYNs with a foreign ISN, in 1/12 an abort; then the fair close phase (both applications close in 4/5 of the cases; deliver all until quiet, advance one RTO, repeat; then 2*MSL+RTO of quiet time); every op's result, the full TCB snapshot and the transition log are compared with the Lean model; non-trivial = at least one close call succeeded; distinct = hash of the op lines";
+const RULE_ENUM: &str = "action space: deliver any in-flight segment, drop it, deliver it without consuming it (duplicate), close A, close B; after every action both sides emit; when nothing is in flight the applications close, then RTO ticks fire. Exhaustive part (stateless DFS over ALL schedules, no data: SYN / SYN-ACK / ACK / FIN and their ACKs): active/passive open with <= drops / <= dups, simultaneous open with <= sim_drops / <= sim_dups. Sampled part: the same action space with <= 2 drops, <= 2 dups and random choices, in four variants (active/passive | simultaneous) x (no data | 3 bytes queued before the handshake and 2 the other way). Each schedule ends with the fair close phase and all oracles; every k-th schedule is printed and compared with the Lean model";
+const RULE_EDGES: &str = "every entry of the RFC 9293 edge table (10x10 unlabelled, 20 events x 10x10 labelled) of the harness' Rust copy, answered by the Lean table of Spec/Rfc9293.lean through the driver";
+
+// ---------------------------------------------------------------------------------------------
+// generator 2: small-scope exhaustive enumeration
+// ---------------------------------------------------------------------------------------------
+#[derive(Clone, Copy, Debug)]
+enum Act {
+    Deliver(usize),
+    Drop(usize),
+    Dup(usize),
+    Close(SideId),
+}
+
+struct EnumCfg {
+    simultaneous: bool,
+    data: bool,
+    max_drops: u32,
+    max_dups: u32,
+    max_ticks: u32,
+}
+
+/// run one schedule following `path` (then always choice 0); returns (choice, alternatives) per
+/// decision point
+fn enum_schedule(cfg: &EnumCfg, path: &[usize], mut random: Option<&mut Rng>, out: &mut Out) -> Vec<(usize, usize)> {
+    let mut ex = Exec::new(Oracles { prefix: true, c17: true });
+    ex.c03 = Some(C03State::default());
+    let mut net = Net { pending: vec![] };
+    let mut taken = vec![];
+    ex.apply("open A 4294967290 1500", out);
+    if cfg.simultaneous {
+        ex.apply("open B 2147483640 1500", out);
+    } else {
+        ex.apply("listen B 2147483640 1500", out);
+    }
+    if cfg.data {
+        ex.apply("write A 3 7", out);
+    }
+    let (mut drops, mut dups, mut ticks) = (0, 0, 0);
+    let mut wrote_b = false;
+    emit_both(&mut ex, &mut net, out);
+    for _depth in 0..60 {
+        if ex.dead {
+            break;
+        }
+        if cfg.data && !wrote_b && ex.snap_ref(SideId::B).map_or(false, |s| matches!(s.state, State::SynReceived | State::Established)) {
+            wrote_b = true;
+            ex.apply("write B 2 9", out);
+            emit_both(&mut ex, &mut net, out);
+        }
+        // distinct in-flight entries
+        let mut inflight: Vec<usize> = vec![];
+        for k in 0..net.pending.len() {
+            if !net.pending[..k].contains(&net.pending[k]) {
+                inflight.push(k);
+            }
+        }
+        let mut acts: Vec<Act> = inflight.iter().map(|k| Act::Deliver(*k)).collect();
+        for x in [SideId::A, SideId::B] {
+            let closed = ex.c03.as_ref().unwrap().closed[x as usize];
+            if !closed && ex.snap_ref(x).map_or(false, |s| s.state != State::SynSent) {
+                acts.push(Act::Close(x));
+            }
+        }
+        if drops < cfg.max_drops {
+            acts.extend(inflight.iter().map(|k| Act::Drop(*k)));
+        }
+        if dups < cfg.max_dups {
+            acts.extend(inflight.iter().map(|k| Act::Dup(*k)));
+        }
+        if acts.is_empty() {
+            // nothing in flight, both closed (or unable to): let the retransmission timer fire
+            let live = ex.a.tcb.is_some() || ex.b.tcb.is_some();
+            let outstanding = [SideId::A, SideId::B].iter().any(|x| ex.snap_ref(*x).map_or(false, |s| !s.retransmit.is_empty()));
+            if live && outstanding && ticks < cfg.max_ticks {
+                ticks += 1;
+                for x in [SideId::A, SideId::B] {
+                    if ex.side(x).tcb.is_some() {
+                        ex.apply(&format!("tick {} 150", x.name()), out);
+                    }
+                }
+                emit_both(&mut ex, &mut net, out);
+                continue;
+            }
+            break;
+        }
+        let c = match random.as_mut() {
+            Some(r) => r.below(acts.len() as u64) as usize,
+            None => if taken.len() < path.len() { path[taken.len()] } else { 0 },
+        };
+        let c = c.min(acts.len() - 1);
+        taken.push((c, acts.len()));
+        match acts[c] {
+            Act::Deliver(k) => {
+                let (to, i) = net.pending.remove(k);
+                deliver(&mut ex, &mut net, to, i, out);
+            }
+            Act::Drop(k) => {
+                drops += 1;
+                let (to, i) = net.pending.remove(k);
+                out.line(&format!("!lose {} {}", to.name(), i), "bad-op");
+            }
+            Act::Dup(k) => {
+                dups += 1;
+                let (to, i) = net.pending[k];
+                out.line(&format!("!dup {} {}", to.name(), i), "bad-op");
+                deliver(&mut ex, &mut net, to, i, out);
+            }
+            Act::Close(x) => {
+                ex.apply(&format!("close {}", x.name()), out);
+            }
+        }
+        emit_both(&mut ex, &mut net, out);
+    }
+    if !ex.dead {
+        fair_close_phase(&mut ex, &mut net, out, true);
+    }
+    if ex.c03.as_ref().unwrap().closed.iter().any(|b| *b) {
+        out.mark_nontrivial();
+    }
+    for x in [SideId::A, SideId::B] {
+        out.count(&format!("final.{}", describe_short(&ex, x)));
+    }
+    taken
+}
+
+fn describe_short(ex: &Exec, x: SideId) -> String {
+    match ex.snap_ref(x) {
+        Some(s) => state_str(s.state).to_string(),
+        None => if ex.side(x).released { "released".into() } else { "none".into() },
+    }
+}
+
+fn run_enum(args: &Args, out: &mut Out) {
+    let get = |k: &str, d: u64| -> u64 { args.extra.get(k).and_then(|s| s.parse().ok()).unwrap_or(d) };
+    // exhaustive part: the handshake and the two closes without data (SYN / SYN-ACK / ACK / FIN and
+    // their ACKs only); active/passive with `drops`/`dups`, simultaneous open with `sim_drops`/`sim_dups`
+    let (drops, dups) = (get("drops", 1) as u32, get("dups", 1) as u32);
+    let (sim_drops, sim_dups) = (get("sim_drops", 0) as u32, get("sim_dups", 0) as u32);
+    let sim = get("sim", 1) == 1;
+    let ticks = get("ticks", 2) as u32;
+    let limit = get("limit", 2_000_000);
+    let print_every = get("print_every", 50);
+    // sampled part: the same action space with data queued on both sides, random choices
+    let samples = get("samples", 500);
+    let mut total: u64 = 0;
+    let mut null = Out::null();
+    null.max_failures = 40;
+    let mut exhaustive = vec![(false, drops, dups)];
+    if sim {
+        exhaustive.push((true, sim_drops, sim_dups));
+    }
+    for (vi, (simultaneous, d, u)) in exhaustive.into_iter().enumerate() {
+        let cfg = EnumCfg { simultaneous, data: false, max_drops: d, max_dups: u, max_ticks: ticks };
+        let mut path: Vec<usize> = vec![];
+        let mut n: u64 = 0;
+        loop {
+            let printed = n % print_every == 0;
+            let o: &mut Out = if printed { &mut *out } else { &mut null };
+            o.begin_case(total);
+            let taken = enum_schedule(&cfg, &path, None, o);
+            o.end_case();
+            n += 1;
+            total += 1;
+            // next path in DFS order
+            let mut k = taken.len();
+            let mut next = None;
+            while k > 0 {
+                k -= 1;
+                if taken[k].0 + 1 < taken[k].1 {
+                    let mut p: Vec<usize> = taken[..k].iter().map(|t| t.0).collect();
+                    p.push(taken[k].0 + 1);
+                    next = Some(p);
+                    break;
+                }
+            }
+            match next {
+                Some(p) if n < limit => path = p,
+                Some(_) => {
+                    out.notes.push(format!("exhaustive variant {} (simultaneous={}): enumeration stopped at the limit of {} schedules (NOT exhaustive)", vi, simultaneous, limit));
+                    break;
+                }
+                None => {
+                    out.notes.push(format!("exhaustive variant {} (simultaneous={}, no data): ALL {} schedules with <= {} drops, <= {} duplicates, <= {} RTO expirations enumerated", vi, simultaneous, n, d, u, ticks));
+                    break;
+                }
+            }
+        }
+        out.count_n(&format!("enum.exhaustive{}.schedules", vi), n);
+    }
+    let mut rng = Rng::new(args.seed ^ 0xe03);
+    for (vi, (simultaneous, data)) in [(false, false), (true, false), (false, true), (true, true)].into_iter().enumerate() {
+        let cfg = EnumCfg { simultaneous, data, max_drops: 2, max_dups: 2, max_ticks: ticks };
+        for n in 0..samples {
+            let printed = n % print_every.max(1) == 0;
+            let o: &mut Out = if printed { &mut *out } else { &mut null };
+            o.begin_case(total);
+            let mut r = rng.fork();
+            enum_schedule(&cfg, &[], Some(&mut r), o);
+            o.end_case();
+            total += 1;
+        }
+        out.count_n(&format!("enum.sampled{}.schedules", vi), samples);
+    }
+    // move what the unprinted schedules found into the main record
+    out.evaluations += null.evaluations;
+    for (k, v) in std::mem::take(&mut null.hist) {
+        out.count_n(&k, v);
+    }
+    for f in std::mem::take(&mut null.failures) {
+        if out.failures.len() < out.max_failures {
+            out.failures.push(f);
+        }
+    }
+}
+
+// ---------------------------------------------------------------------------------------------
+// the table dump
+// ---------------------------------------------------------------------------------------------
+fn run_edges(out: &mut Out) {
+    out.begin_case(0);
+    out.mark_nontrivial();
+    for a in ALL_STATES {
+        for b in ALL_STATES {
+            out.line(&format!("edge {} {}", st_name(a), st_name(b)), if rfc_edges(a, b) { "1" } else { "0" });
+        }
+    }
+    let mut evs: Vec<(String, Ev)> = vec![("open".into(), Ev::Open), ("close".into(), Ev::Close), ("abort".into(), Ev::Abort), ("timeout".into(), Ev::Timeout)];
+    for n in 0..16u8 {
+        evs.push((format!("seg{}", n), Ev::Seg { ack: n & 8 != 0, rst: n & 4 != 0, syn: n & 2 != 0, fin: n & 1 != 0 }));
+    }
+    let mut edges = 0;
+    for (name, ev) in &evs {
+        for a in ALL_STATES {
+            for b in ALL_STATES {
+                let r = rfc_cause(*ev, a, b);
+                edges += r as u64;
+                // every labelled edge is an edge of the figure
+                if r && !rfc_edges(a, b) {
+                    out.fail(&format!("labelled edge {} {}>{} is not in rfc_edges", name, st_name(a), st_name(b)), "table-inconsistent");
+                }
+                out.line(&format!("cause {} {} {}", name, st_name(a), st_name(b)), if r { "1" } else { "0" });
+            }
+        }
+    }
+    out.count_n("labelled_edges", edges);
+    out.end_case();
+}
+
+// ---------------------------------------------------------------------------------------------
+// replay: op lines up to the `!fair` directive, then the fair close phase
+// ---------------------------------------------------------------------------------------------
+fn replay_c03(args: &Args, out: &mut Out) {
+    let mut ex = Exec::new(Oracles { prefix: true, c17: true });
+    ex.c03 = Some(C03State::default());
+    let mut net = Net { pending: vec![] };
+    out.begin_case(0);
+    out.mark_nontrivial();
+    // in-flight multiset: +1 per emission and `!dup`, -1 per delivery and `!lose`
+    let mut minus: std::collections::HashMap<(u8, usize), i64> = Default::default();
+    let side_of = |s: &str| if s == "A" { SideId::A } else { SideId::B };
+    for l in read_ops(args.replay.as_ref().unwrap()) {
+        if l.starts_with("case ") {
+            continue;
+        }
+        let w: Vec<&str> = l.split_whitespace().collect();
+        if let Some(rest) = l.strip_prefix("!fair") {
+            for (i, (h, _)) in ex.history.iter().enumerate() {
+                let to = if h.dst_port == A_PORT { SideId::A } else { SideId::B };
+                if 1 - minus.get(&(to as u8, i)).copied().unwrap_or(0) > 0 {
+                    net.pending.push((to, i));
+                }
+            }
+            fair_close_phase(&mut ex, &mut net, out, rest.trim() == "1");
+            break;
+        }
+        if w.len() == 3 && (w[0] == "!lose" || w[0] == "!dup" || w[0] == "deliver") {
+            if let Ok(i) = w[2].parse::<usize>() {
+                *minus.entry((side_of(w[1]) as u8, i)).or_insert(0) += if w[0] == "!dup" { -1 } else { 1 };
+            }
+        }
+        if l.starts_with('!') {
+            out.line(&l, "bad-op");
+            continue;
+        }
+        ex.apply(&l, out);
+    }
+    out.end_case();
+}
+
 pub fn run(args: &Args) {
-    eprintln!("hcore: {} not implemented yet", args.prop);
-    std::process::exit(2);
+    let mut out = Out::new(&args.out);
+    out.max_failures = 60;
+    if args.prop.ends_with("edges") {
+        run_edges(&mut out);
+        return out.finish(RULE_EDGES);
+    }
+    let is_enum = args.prop.ends_with("enum");
+    if args.replay.is_some() {
+        replay_c03(args, &mut out);
+        return out.finish(if is_enum { RULE_ENUM } else { RULE_SCHED });
+    }
+    if is_enum {
+        run_enum(args, &mut out);
+        return out.finish(RULE_ENUM);
+    }
+    let steps: u64 = args.extra.get("steps").and_then(|s| s.parse().ok()).unwrap_or(200);
+    let mut rng = Rng::new(args.seed ^ 0x0c03);
+    for c in 0..args.cases {
+        let mut r = rng.fork();
+        let mut ex = Exec::new(Oracles { prefix: true, c17: true });
+        ex.c03 = Some(C03State::default());
+        out.begin_case(c);
+        sched_case(&mut ex, &mut r, &mut out, steps);
+        if ex.c03.as_ref().unwrap().closed.iter().any(|b| *b) {
+            out.mark_nontrivial();
+        }
+        for x in [SideId::A, SideId::B] {
+            out.count(&format!("final.{}", describe_short(&ex, x)));
+        }
+        out.count_n("bytes.submitted", (ex.a.submitted.len() + ex.b.submitted.len()) as u64);
+        out.end_case();
+    }
+    out.finish(RULE_SCHED);
 }
